@@ -352,12 +352,23 @@ def space_valuations():
         yield dict(zip(SPATIAL, combo))
 
 
+def _norm_labels(text):
+    """loop labels are numbered per interpreter run (t1, t2, ...): rename them in order of appearance so that two runs of
+    the same code compare equal"""
+    import re
+    seen = {}
+
+    def sub(m):
+        return seen.setdefault(m.group(0), '@l%d' % (len(seen) + 1))
+    return re.sub(r'\bt\d+\b', sub, text)
+
+
 def _result_key(ip, res):
     """canonical description of a result for comparison across histories"""
     if isinstance(res, Obj) and res.isa('MatrixArray'):
         t = ma_term(ip, res)
         sp = res.attrs.get('space')
-        return ('MA', N.show(canon(ip, t)), getattr(sp, 'v', None))
+        return ('MA', _norm_labels(N.show(canon(ip, t))), getattr(sp, 'v', None))
     if isinstance(res, Obj) and res.isa('PairTable'):
         out = []
         for rec in pt_records(ip, res):
@@ -574,7 +585,7 @@ def _hist_key(ip, res, rename):
         t = ma_term(ip, res)
         if rename:
             t = _rename_back(t)
-        return ('MA', N.show(canon(ip, t)), getattr(res.attrs.get('space'), 'v', None))
+        return ('MA', _norm_labels(N.show(canon(ip, t))), getattr(res.attrs.get('space'), 'v', None))
     if isinstance(res, Obj) and res.isa('PairTable'):
         out = []
         for rec in pt_records(ip, res):
